@@ -7,8 +7,9 @@
 (*   Compute(o, p, v)  the getter of property p ran on object o and its    *)
 (*                     result v was stored; enabled only if nothing (or    *)
 (*                     None) is stored for (o, p)                          *)
-(*   Hit(o, p, v)      the stored value was returned; enabled only if a    *)
-(*                     non-None value v is stored for (o, p)               *)
+(*   Hit(o, p, v)      the stored value was returned; enabled only if the  *)
+(*                     value v (possibly None, after a compute that gave   *)
+(*                     None) is stored for (o, p)                          *)
 (*                                                                         *)
 (* Objects are numbered by the recorder in order of first appearance;      *)
 (* values are identified by a token (None = 0).  Hence: a property is      *)
@@ -40,7 +41,9 @@ Stored(e) == IF Key(e) \in DOMAIN cache THEN cache[Key(e)] ELSE 0
 Allowed(e) ==
   CASE e.k = "compute" -> Stored(e) = 0 /\ e.v # 0
     [] e.k = "compute-none" -> Stored(e) = 0 /\ e.v = 0
-    [] e.k = "hit" -> \/ Stored(e) # 0 /\ Stored(e) = e.v
+    \* (whether a None result is kept or computed again on the next read is an
+    \* implementation choice no caller can observe: both are allowed)
+    [] e.k = "hit" -> \/ Key(e) \in DOMAIN cache /\ cache[Key(e)] = e.v
                       \/ Tr.pre /\ Key(e) \notin DOMAIN cache /\ e.v # 0
     [] OTHER -> FALSE
 
@@ -50,7 +53,8 @@ Consume ==
   /\ st = "run" /\ l <= Len(Tr.ev)
   /\ IF Allowed(Ev)
      THEN /\ l' = l + 1 /\ st' = "run"
-          /\ cache' = IF Ev.k = "compute" \/ (Ev.k = "hit" /\ Key(Ev) \notin DOMAIN cache)
+          /\ cache' = IF Ev.k \in {"compute", "compute-none"}
+                         \/ (Ev.k = "hit" /\ Key(Ev) \notin DOMAIN cache)
                       THEN [x \in DOMAIN cache \cup {Key(Ev)} |->
                               IF x = Key(Ev) THEN Ev.v ELSE cache[x]]
                       ELSE cache
